@@ -18,7 +18,7 @@ ZFLAGS = ["-Z", "stubbing", "-Z", "unstable-options", "-Z", "concrete-playback"]
 RSS_LIMIT_KB = int(os.environ.get("VERIF_CBMC_RSS_GB", "14")) * 1024 * 1024
 
 CHECK_RE = re.compile(
-    r"Check (\d+): (\S+)\n\t - Status: (\w+)\n\t - Description: \"((?:[^\"\\]|\\.)*)\"\n\t - Location: ([^\n]*)")
+    r"Check (\d+): (\S+)\n\t - Status: (\w+)\n\t - Description: \"([^\n]*)\"\n\t - Location: ([^\n]*)")
 
 
 class HarnessResult:
@@ -107,12 +107,12 @@ def _resolve_unwindset(d, harnesses, unwindset, info):
     if p.returncode != 0:
         return None, p.stdout + "\n" + p.stderr
     bdir = os.path.join(TARGET, "kani", "x86_64-unknown-linux-gnu", "debug", "build", "rnacos")
-    newest = max((os.path.join(bdir, x) for x in os.listdir(bdir)), key=os.path.getmtime)
     ids = {}
+    import glob
     for h in harnesses:
         short = h.split("::")[-1]
-        import glob
-        outs = [f for f in glob.glob(os.path.join(newest, "out", "*%s.out" % short)) if not f.endswith(".symtab.out")]
+        outs = [f for f in glob.glob(os.path.join(bdir, "*", "out", "*%s.out" % short)) if not f.endswith(".symtab.out")]
+        outs = sorted(outs, key=os.path.getmtime, reverse=True)[:1]
         for f in outs:
             lp = subprocess.run(["cbmc", "--show-loops", f], capture_output=True, text=True).stdout
             for m in re.finditer(r"^Loop (\S+):\n\s+file (\S+) line (\d+) column \d+ function (.*)$", lp, re.M):
